@@ -1701,7 +1701,13 @@ def generate_many(engine, initial, producer, selector=None, decycle=False,
             yield item
         else:
             yield selector(item)
-        produced = utils.limit_iterable(producer(item), engine)
+        produced = producer(item)
+        if not isinstance(produced, utils.IterableType):
+            # (do not fall back to the legacy __getitem__ iteration
+            # protocol on arbitrary objects)
+            raise TypeError('{} is not iterable'.format(
+                type(produced).__name__))
+        produced = utils.limit_iterable(produced, engine)
         if depth_first:
             len_before = len(queue)
             queue.extend(produced)
